@@ -164,6 +164,8 @@ def verify_unit(reg, idx: SourceIndex, c: Contract, timeout_ms=None, seed=0, dis
                             raise BindingLost(f"result shape: {e}")
                 env["result"] = rv
                 for name, text in c.ensures:
+                    if name.startswith("def:"):
+                        continue      # definitional: names this contract's own postcondition
                     goal = eng.truth(eng.spec_eval(text, env, o.st, mod, c), o.st)
                     ctx.oblige(f"post/{name}", o.st, goal, kind="post", info={"path": ctx.paths})
                 for exc, cond in c.raises.items():
